@@ -312,6 +312,22 @@ def gen_strings(rng, tier):
         if rng.random() < 0.1:
             cps = cps[1:]                      # leading marks
         out.append(("random", cps[:12]))
+    # long runs of combining marks on one starter: the reorder / compose sequence buffer lives on the stack up to
+    # CC_SEQ_SIZE (10) marks, spills to the heap at the 11th and grows every CC_SEQ_STEP (5) after that — every run length
+    # across those switches, marks in reverse canonical order (every one has to move), already ordered, and shuffled
+    byccc = {}
+    for m in marks:
+        byccc.setdefault(R["ccc"][m], m)
+    distinct = [byccc[k] for k in sorted(byccc) if k][:24]
+    for k in list(range(8, 24)):
+        run = distinct[:k]
+        for base in (0x61, 0x3B1, 0x1100):
+            out.append(("longrun-reversed", [base] + run[::-1]))
+            out.append(("longrun-ordered", [base] + run))
+            sh = list(run); rng.shuffle(sh)
+            out.append(("longrun-shuffled", [base] + sh + [0x62]))
+            same = [rng.choice(common) for _ in range(k)]
+            out.append(("longrun-common", [base] + same))
     # low-16-bit aliases of combining marks behind a starter (supplementary plane second characters)
     for a in (0x61, 0x41, 0x65, 0x3B1, 0x915, 0x1100, 0xAC00):
         for b in (0x10300, 0x10301, 0x10308, 0x1030A, 0x20300, 0x1093C, 0x11161, 0x111A8, 0x10338, 0xF0301):
